@@ -475,7 +475,7 @@ def vgbs_config(res, case, groups=None):
     # ---------------------------------------------------------------- KL: gradient vs finite difference (PNR)
     if run("kl"):
         base = samples_le2(n)
-        dsets = [case["data"]] if "data" in case else multisets(base, 2)
+        dsets = [case["data"]] if "data" in case else multisets(base, 1 if case.get("kl", "pairs") == "single" else 2)
         pref = {s: p_pure(A_ref, norm, s) for s in base}
         for data in dsets:
             data = [tuple(s) for s in data]
@@ -537,12 +537,12 @@ GROUPS = ("model", "cov", "moments", "dist", "kl", "stoch")
 
 
 def work_vgbs(task):
-    """task = ("vgbs", threshold flag, [(A, n_mean, embedding spec, thetas, nmax, stochastic family), ...])."""
+    """task = ("vgbs", threshold flag, [(A, n_mean, embedding spec, thetas, nmax, Stochastic family, KL family), ...])."""
     _, thr, items = task
     res = Res()
-    for A, n_mean, spec, thetas, nmax, stoch in items:
+    for A, n_mean, spec, thetas, nmax, stoch, klfam in items:
         for theta in thetas:
-            case = {"part": "vgbs", "A": A, "n_mean": n_mean, "emb": spec, "theta": list(theta), "threshold": thr, "nmax": nmax, "stoch": stoch}
+            case = {"part": "vgbs", "A": A, "n_mean": n_mean, "emb": spec, "theta": list(theta), "threshold": thr, "nmax": nmax, "stoch": stoch, "kl": klfam}
             res.n += 1
             res.stats["A.configs"] += 1
             vgbs_config(res, case)
@@ -592,21 +592,22 @@ def embeddings(n, quick):
 
 
 def policy(n, spec, axis, quick):
-    """(largest photon number of the enumerated PNR patterns, Stochastic sample-set family) for a class of lattice points."""
+    """(largest photon number of the enumerated PNR patterns, Stochastic sample-set family, KL data-set family) for a class
+    of lattice points (axis = at most one non-zero coordinate)."""
     if quick:
         if n == 2:
-            return 6, "pairs"
+            return 6, "pairs", "pairs"
         if n == 3:
-            return 6, "single"
-        return 4, ("single" if spec[0] == "Exp" else "none")
+            return 6, "single", "pairs"
+        return 4, ("single" if spec[0] == "Exp" else "none"), "pairs"
     if n <= 3:
-        return 8, "pairs"
-    return (8 if axis else 6), "single"
+        return 8, "pairs", "pairs"
+    return (8, "single", "pairs") if axis else (6, "none", "single")
 
 
 POLICY_TEXT = {
-    True: "PNR patterns: <= 6 photons on 2 and 3 modes, <= 4 photons on 4 modes; Stochastic sample sets: 2 modes all multisets of 1 or 2 samples, 3 modes single-sample sets, 4 modes single-sample sets with Exp only",
-    False: "PNR patterns: <= 8 photons on 2 and 3 modes and on the axis sub-lattice of 4 modes, <= 6 photons on the rest of the 4-mode lattice; Stochastic sample sets: 2 and 3 modes all multisets of 1 or 2 samples, 4 modes single-sample sets",
+    True: "PNR patterns: <= 6 photons on 2 and 3 modes, <= 4 photons on 4 modes; KL data sets: all multisets of 1 or 2 samples; Stochastic sample sets: 2 modes all multisets of 1 or 2 samples, 3 modes single-sample sets, 4 modes single-sample sets with Exp only",
+    False: "PNR patterns: <= 8 photons on 2 and 3 modes and on the axis sub-lattice (<= 1 non-zero coordinate) of 4 modes, <= 6 photons on the rest of the 4-mode lattice; KL data sets: all multisets of 1 or 2 samples, on the non-axis part of the 4-mode lattice single-sample sets; Stochastic sample sets: 2 and 3 modes all multisets of 1 or 2 samples, 4 modes single-sample sets on the axis sub-lattice",
 }
 
 
@@ -630,13 +631,13 @@ def vgbs_tasks(quick):
         for A in mats:
             for nm in NMEANS:
                 for spec, lattice, _ in embeddings(n, quick):
-                    thr_items.append((A, nm, spec, lattice, 0, "none"))
+                    thr_items.append((A, nm, spec, lattice, 0, "none", "none"))
                     for axis in (True, False):
                         lat = [t for t in lattice if (nnz(t) <= 1) == axis]
-                        nmax, stoch = policy(n, spec, axis, quick)
+                        nmax, stoch, klfam = policy(n, spec, axis, quick)
                         chunk = 9 if n == 4 else 14
                         for k in range(0, len(lat), chunk):
-                            pnr.append(("vgbs", False, [(A, nm, spec, lat[k : k + chunk], nmax, stoch)]))
+                            pnr.append(("vgbs", False, [(A, nm, spec, lat[k : k + chunk], nmax, stoch, klfam)]))
     nthr = 2 if quick else 8
     thr = [("vgbs", True, thr_items[k::nthr]) for k in range(nthr)]
     return thr + pnr, decl
@@ -934,9 +935,21 @@ def tevo_case(res, case, fock=True):
         res.violation("C20|TimeEvolution|passive", f"TimeEvolution is not a passive (orthogonal symplectic, displacement-free) map for {txt}", case)
     if not close(X, ph.interferometer(np.diag(np.exp(1j * theta))), 0, 1e-9):
         res.violation("C20|TimeEvolution|phase", f"TimeEvolution differs from exp(-i w t a^dag a) per mode (angles {theta.tolist()}) by {maxdiff(X, ph.interferometer(np.diag(np.exp(1j * theta)))):.3g} for {txt}", case)
+    # the documented local-mode circuit  Interferometer(Ul^T) ; TimeEvolution ; Interferometer(Ul)  ==  Ul exp(-iwt) Ul^T
+    Utot = Ul @ np.diag(np.exp(1j * theta)) @ Ul.T
+    try:
+        prog = sf.Program(n)
+        with prog.context as q:
+            sf.ops.Interferometer(Ul.T) | q
+            dynamics.TimeEvolution(w, t) | q
+            sf.ops.Interferometer(Ul) | q
+        sem2 = opsem.program_map(prog.circuit, n)
+        if not close(sem2.X, ph.interferometer(Utot), 0, 1e-9) or np.max(np.abs(sem2.d)) > 1e-12:
+            res.violation("C20|TimeEvolution|local-mode-unitary", f"Interferometer(Ul^T); TimeEvolution; Interferometer(Ul) differs from the mode transformation Ul exp(-iwt) Ul^T by {maxdiff(sem2.X, ph.interferometer(Utot)):.3g} for {txt}", case)
+    except Exception as e:
+        res.violation(f"C20|TimeEvolution|exception|{type(e).__name__}", f"local-mode circuit raised {type(e).__name__}: {str(e)[:160]} for {txt}", case)
     if not fock:
         return
-    Utot = Ul @ np.diag(np.exp(1j * theta)) @ Ul.T
     maxph = 3 if n == 2 else 2
     for inp in patterns(n, maxph):
         if "input" in case and list(inp) != case["input"]:
@@ -1135,7 +1148,7 @@ def run(ctx):
         "A.embeddings": {str(n): [d for _, _, d in embeddings(n, quick)] for n in (2, 3, 4)},
         "A.theta_alphabet": list(THETA),
         "A.photon_patterns_and_sample_sets": POLICY_TEXT[quick] + "; threshold mode: all 2^n click patterns",
-        "A.kl_data_sets": "all multisets of 1 or 2 samples with <= 2 photons each whose samples all have non-zero reference probability (others counted, skipped: the cost is +inf)",
+        "A.kl_data_sets": "multisets of samples with <= 2 photons each (families above) whose samples all have non-zero reference probability (others counted, skipped: the cost is +inf)",
         "A.stochastic": "sample sets drawn from the samples with <= 2 photons (families above), h in {total photons, photons in mode 0}, supplied through VGBS(samples=..) with n_samples = len(set) (no sampling takes place)",
         "A.vgbs_configurations_declared": exp_configs,
         "A.precondition": f"spectral norm of W A_init W <= {SPEC_MAX} (documented: singular values must not exceed one); excluded points are counted in stats",
